@@ -463,6 +463,8 @@ def api_completion(st, pi, a):
 
 
 def raising_anywhere(st, ps):
+    if any(r.kind == "map" and "2" in (r.items or "") for r in ps.reqs):     # an argument iterator that raises
+        return True
     specs = [r.spec for r in ps.reqs if r.spec] + ([ps.spec] if ps.spec else [])
     if any(s["mode"] == "x" or s["ecb"] == "x" or s["ccb"] == "x" for s in specs):
         return True
@@ -505,7 +507,8 @@ def mon_C08(st):
                         continue
                     if r.kind == "map":
                         done = sum(1 for (pj, _) in r.pulls if pj <= jc)
-                        if done != len(r.items):
+                        total = r.items.index("2") + 1 if "2" in r.items else len(r.items)
+                        if done != total:
                             out.append(("returned-before-iterable-consumed", jc,
                                         f"pool {pi} {r.name}: {done} of {len(r.items)} elements"))
                     elif r.num is not None:
